@@ -35,6 +35,9 @@ type Kernel struct {
 	Zero    map[string]string `json:"zero"`   // var decl name -> Lean zero literal with type, default "(0 : Int)"
 	Drop    []string          `json:"drop"`   // statement prefixes (callee text) that are dropped, e.g. lock calls
 	Module  string            `json:"module"` // output module (file name without .lean) under Generated/
+	Nat     bool              `json:"nat"`      // unsigned arithmetic: / and % are Nat division (Go uint semantics), not Int.tdiv
+	FloatOp bool              `json:"floatop"`  // arithmetic is on floats: / is float division
+	RetVar  string            `json:"retvar"`   // return this variable instead of translating the return expression
 }
 
 type Schema struct {
@@ -112,8 +115,14 @@ func (t *tr) expr(e ast.Expr) string {
 		case token.ADD, token.SUB, token.MUL:
 			return fmt.Sprintf("(%s %s %s)", a, x.Op, b)
 		case token.QUO:
+			if t.k.Nat || t.k.FloatOp {
+				return fmt.Sprintf("(%s / %s)", a, b)
+			}
 			return fmt.Sprintf("(goDiv %s %s)", a, b)
 		case token.REM:
+			if t.k.Nat {
+				return fmt.Sprintf("(%s %% %s)", a, b)
+			}
 			return fmt.Sprintf("(goMod %s %s)", a, b)
 		case token.LSS, token.GTR, token.LEQ, token.GEQ:
 			return fmt.Sprintf("(decide (%s %s %s))", a, map[token.Token]string{token.LSS: "<", token.GTR: ">", token.LEQ: "≤", token.GEQ: "≥"}[x.Op], b)
@@ -242,6 +251,12 @@ func (t *tr) final() string {
 }
 
 func (t *tr) ret(x *ast.ReturnStmt, ind string) string {
+	if t.k.RetVar != "" {
+		if t.k.Ret == "val" {
+			return ind + t.k.RetVar + "\n"
+		}
+		return fmt.Sprintf("%s(%s, %s)\n", ind, t.k.RetVar, t.k.State)
+	}
 	switch t.k.Ret {
 	case "state":
 		return ind + t.k.State + "\n"
